@@ -338,9 +338,15 @@ func c17LibScan(z []byte) (decoded []byte, class string) {
 
 // c17Digest: the records delivered by ReadSequencesFromFile as a digest of (batch order, rank, id, sequence,
 // qualities)
-func c17Digest(path string) (nrec int, digest string, res string) {
+func c17Digest(path string, openFails bool) (nrec int, digest string, res string) {
 	var lines []string
-	res = guardT(10*time.Second, func() string {
+	// when the toolkit's opener refuses the file, ReadSequencesFromFile ends in log.Fatalf in the calling goroutine before
+	// any other goroutine exists: no need for the 50 ms guardT waits after a log.Fatal for the other goroutines to settle
+	run := guardT
+	if openFails {
+		run = c17Fast
+	}
+	res = run(10*time.Second, func() string {
 		it, err := obiformats.ReadSequencesFromFile(path, obiformats.OptionsParallelWorkers(1))
 		if err != nil {
 			return "fail"
